@@ -3,7 +3,9 @@
    Base/ResLemmas.v or C16/SatLemmas.v and followed by its assumptions. *)
 From stdpp Require Import gmap.
 From Coq Require Import ZArith.
-From V Require Import Base.Res Base.ResLemmas C16.SatModel C16.SatLemmas C16.Laws C16.LawsLemmas.
+From Coq Require Import List.
+From V Require Import Base.Res Base.ResLemmas C16.SatModel C16.SatLemmas C16.Laws C16.LawsLemmas
+  C16.DraModel C16.DraLemmas C16.QuantModel C16.QuantLemmas C16.DraLaws C16.DraLawsLemmas.
 Open Scope Z_scope.
 
 (* --- saturating integers: for ALL int64 operands the Go body (modelled with
@@ -31,6 +33,124 @@ Theorem C16_dra_total_never_negative : forall l,
   0 <= dra_total l.
 Proof. exact dra_total_never_negative. Qed.
 Print Assumptions C16_dra_total_never_negative.
+
+(* --- the saturation specification over unbounded integers: for every list (any length) of
+   non-negative int64 (count, times) pairs, the running total of SaturatingAdd / SaturatingMul is
+   min(MaxInt64, exact sum of the exact products) --- *)
+Theorem C16_dra_fold_spec : forall l, terms_ok l -> fold_terms l 0 = Z.min max64 (exact_sum l).
+Proof. exact fold_terms_spec. Qed.
+Print Assumptions C16_dra_fold_spec.
+
+Theorem C16_dra_fold_mono : forall l l',
+  terms_ok l -> terms_ok l' -> terms_le l l' -> fold_terms l 0 <= fold_terms l' 0.
+Proof. exact fold_terms_mono. Qed.
+Print Assumptions C16_dra_fold_mono.
+
+Theorem C16_dra_fold_perm : forall l1 l2,
+  terms_ok l1 -> Permutation l1 l2 -> fold_terms l1 0 = fold_terms l2 0.
+Proof. exact fold_terms_perm. Qed.
+Print Assumptions C16_dra_fold_perm.
+
+(* --- JobInfo.GetMinDRAResources (whole function: per-role and fallback path, every device class):
+   the count reported for a class is min(MaxInt64, sum of count_i * times_i over the calls
+   addResource receives), never negative; the class set and the capacities are exact --- *)
+Theorem C16_min_dra_count_spec : forall j c, job_ok j ->
+  count_of (result_at (get_min_dra j) c) = Z.min max64 (exact_sum (class_terms c (contribs j))).
+Proof. exact min_dra_count_spec. Qed.
+Print Assumptions C16_min_dra_count_spec.
+
+Theorem C16_min_dra_count_nonneg : forall j c, job_ok j -> 0 <= count_of (result_at (get_min_dra j) c).
+Proof. exact min_dra_count_nonneg. Qed.
+Print Assumptions C16_min_dra_count_nonneg.
+
+Theorem C16_min_dra_classes : forall j c,
+  is_Some (result_at (get_min_dra j) c) <-> Exists (fun ct => is_Some (fst ct !! c)) (contribs j).
+Proof. exact min_dra_classes. Qed.
+Print Assumptions C16_min_dra_classes.
+
+Theorem C16_min_dra_cap_spec : forall j c dim,
+  cap_of (result_at (get_min_dra j) c) dim = exact_sum (cap_terms c dim (contribs j)).
+Proof. exact min_dra_cap_spec. Qed.
+Print Assumptions C16_min_dra_cap_spec.
+
+(* every call addResource(request, times) stems from a task of the job carrying that request, with
+   times = 1 (fallback) or a positive TaskMinAvailable entry *)
+Theorem C16_min_dra_calls : forall j, Forall (call_from j) (contribs j).
+Proof. exact contribs_from. Qed.
+Print Assumptions C16_min_dra_calls.
+
+(* monotone in every count and every multiplicity; independent of the order of the calls *)
+Theorem C16_min_dra_mono : forall cs cs' c,
+  (forall c, terms_ok (class_terms c cs)) -> (forall c, terms_ok (class_terms c cs')) ->
+  Forall2 call_le cs cs' ->
+  count_of (accumulate cs ∅ !! c) <= count_of (accumulate cs' ∅ !! c).
+Proof. exact accumulate_count_mono. Qed.
+Print Assumptions C16_min_dra_mono.
+
+Theorem C16_min_dra_order_irrelevant : forall cs cs' c,
+  (forall c, terms_ok (class_terms c cs)) -> Permutation cs cs' ->
+  count_of (accumulate cs ∅ !! c) = count_of (accumulate cs' ∅ !! c).
+Proof. exact accumulate_count_perm. Qed.
+Print Assumptions C16_min_dra_order_irrelevant.
+
+(* DRAResource.Add / Sub *)
+Theorem C16_dra_add_nonneg : forall d o,
+  in64 (d_count d) -> in64 (d_count o) -> 0 <= d_count d -> 0 <= d_count o ->
+  d_count (dra_add d (Some o)) = Z.min max64 (d_count d + d_count o) /\ 0 <= d_count (dra_add d (Some o)).
+Proof. exact dra_add_nonneg. Qed.
+Print Assumptions C16_dra_add_nonneg.
+
+Theorem C16_dra_sub_never_negative : forall d o, 0 <= d_count (dra_sub d (Some o)).
+Proof. exact dra_sub_never_negative. Qed.
+Print Assumptions C16_dra_sub_never_negative.
+
+(* --- Resource <-> v1.ResourceList (ConvertRes2ResList / NewResource) --- *)
+(* Resource -> ResourceList -> Resource is the identity (and MaxTaskNum is the pods scalar) on the
+   domain rt_domain: scalar names of the classes NewResource keeps, no empty non-nil scalar map,
+   amounts within the float64-exact range *)
+Theorem C16_new_resource_convert : forall r, rt_domain r = true ->
+  new_resource (convert r) = (r, sget r pods_name).
+Proof. exact new_resource_convert. Qed.
+Print Assumptions C16_new_resource_convert.
+
+(* the same without the amount bound, and what exactly is lost outside the name guard *)
+Theorem C16_new_resource_convert_gen : forall r, names_kept r -> sc r <> Some ∅ ->
+  new_resource (convert r) = (r, sget r pods_name).
+Proof. exact new_resource_convert_gen. Qed.
+Print Assumptions C16_new_resource_convert_gen.
+
+Theorem C16_new_resource_convert_pointwise : forall r,
+  scm r !! cpu_name = None -> scm r !! mem_name = None ->
+  let r' := fst (new_resource (convert r)) in
+  cpu r' = cpu r /\ mem r' = mem r /\
+  forall k, scm r' !! k = if kept_scalar k then scm r !! k else None.
+Proof. exact new_resource_convert_pointwise. Qed.
+Print Assumptions C16_new_resource_convert_pointwise.
+
+(* ResourceList -> Resource -> ResourceList, per name class, for every list *)
+Theorem C16_convert_new_resource : forall rl k,
+  let rl' := convert (fst (new_resource rl)) in
+  match name_class k with
+  | CCpu => rl' !! k = Some (default 0 (rl !! k))
+  | CMem => rl' !! k = Some (1000 * qvalue (default 0 (rl !! k)))
+  | CPods => rl' !! k = (fun m => 1000 * qvalue m) <$> rl !! k
+  | CEph | CScalar => rl' !! k = rl !! k
+  | CCountQuota | CIgnoredDev | CDropped => rl' !! k = None
+  end.
+Proof. exact convert_new_resource. Qed.
+Print Assumptions C16_convert_new_resource.
+
+Theorem C16_convert_new_resource_exact : forall rl k m,
+  rl !! k = Some m -> kept_scalar k = true \/ k = cpu_name \/ k = mem_name ->
+  (k = mem_name \/ k = pods_name -> (1000 | m)) ->
+  convert (fst (new_resource rl)) !! k = Some m.
+Proof. exact convert_new_resource_exact. Qed.
+Print Assumptions C16_convert_new_resource_exact.
+
+Theorem C16_qvalue_bounds : forall m,
+  (0 <= m -> m <= 1000 * qvalue m < m + 1000) /\ (m <= 0 -> m - 1000 < 1000 * qvalue m <= m).
+Proof. exact qvalue_bounds. Qed.
+Print Assumptions C16_qvalue_bounds.
 
 (* conversion to a Kubernetes quantity and back is the identity on integer amounts *)
 Theorem C16_quantity_roundtrip : forall x, float_of_quantity (quantity_of_float x) = x.
@@ -152,6 +272,26 @@ Theorem C16_law_diff_accepts_model : forall r s, law_diff r s (fst (diff_zero r 
 Proof. exact law_diff_model. Qed.
 Print Assumptions C16_law_diff_accepts_model.
 
+Theorem C16_law_min_dra_accepts_model : forall j, job_ok j -> law_min_dra j (get_min_dra j) = true.
+Proof. exact law_min_dra_model. Qed.
+Print Assumptions C16_law_min_dra_accepts_model.
+
+Theorem C16_law_dra_ops_accepts_model : forall d o,
+  in64 (d_count d) -> (forall x, o = Some x -> in64 (d_count x)) ->
+  law_dra_ops d o (dra_add d o) (dra_sub d o) = true.
+Proof. exact law_dra_ops_model. Qed.
+Print Assumptions C16_law_dra_ops_accepts_model.
+
+Theorem C16_law_rt_res_accepts_model : forall r,
+  law_rt_res r (convert r) (fst (new_resource (convert r))) (snd (new_resource (convert r))) = true.
+Proof. exact law_rt_res_model. Qed.
+Print Assumptions C16_law_rt_res_accepts_model.
+
+Theorem C16_law_rt_list_accepts_model : forall rl,
+  law_rt_list rl (fst (new_resource rl)) (snd (new_resource rl)) (convert (fst (new_resource rl))) = true.
+Proof. exact law_rt_list_model. Qed.
+Print Assumptions C16_law_rt_list_accepts_model.
+
 (* non-vacuity: a concrete vector pair with scalars on one side only meets the
    hypotheses used above *)
 Example C16_nonvacuous :
@@ -160,3 +300,28 @@ Example C16_nonvacuous :
   less_equal 2 r (add r x) DZero = true /\ sc r <> None /\
   sget (sub (add r x) x) 5 = 0 /\ sub (add r x) x <> r.
 Proof. vm_compute. repeat split; congruence. Qed.
+
+(* non-vacuity of the DRA theorems: a two-role job whose products each fit but whose sum saturates
+   meets job_ok; the result is MaxInt64, the exact sum is larger *)
+Example C16_dra_nonvacuous :
+  let rq c := ({[1%positive := mkD c {[1%positive := 2500]}]} : dmap) in
+  let j := mkJ 0 {[2%positive := 2; 3%positive := 3]}
+               [mkT 0 1 1 2%positive (Some (rq 4611686018427387904));
+                mkT 0 2 2 3%positive (Some (rq 3074457345618258602))] in
+  count_of (result_at (get_min_dra j) 1%positive) = max64 /\
+  max64 < exact_sum (class_terms 1%positive (contribs j)) /\
+  cap_of (result_at (get_min_dra j) 1%positive) 1%positive = 12500 /\
+  length (contribs j) = 2%nat.
+Proof. vm_compute. repeat split; reflexivity. Qed.
+
+Example C16_dra_nonvacuous_job_ok : job_ok example_job /\ length (contribs example_job) = 2%nat.
+Proof. exact example_job_ok. Qed.
+
+(* non-vacuity of the round trip: a vector with a fractional-unit ephemeral-storage amount, pods and
+   a hugepages scalar lies in rt_domain and comes back unchanged *)
+Example C16_roundtrip_nonvacuous :
+  let r := mkRes 1500 4096 (Some {[1%positive := 3; 6%positive := 4194304000; 7%positive := 2500]}) in
+  rt_domain r = true /\
+  convert r !! 7%positive = Some 2500 /\ convert r !! 1%positive = Some 3000 /\
+  new_resource (convert r) = (r, 3).
+Proof. vm_compute. repeat split; reflexivity. Qed.
